@@ -129,11 +129,17 @@ func (s *quicServer) run() error {
 func (s *quicServer) handleConn(c quic.Connection) error {
 	localAddr := netAddr2NetipAddr(c.LocalAddr())
 	remoteAddr := netAddr2NetipAddr(c.RemoteAddr())
+	var concurrent atomic.Int32
 	for {
 		streamAcceptCtx, cancelAccept := context.WithTimeout(context.Background(), s.idleTimeout)
 		stream, err := c.AcceptStream(streamAcceptCtx)
 		cancelAccept()
 		if err != nil {
+			if concurrent.Load() > 0 && c.Context().Err() == nil && errors.Is(err, context.DeadlineExceeded) {
+				// Not idle. There are queries in flight, their responses
+				// have to be written to this connection.
+				continue
+			}
 			return err
 		}
 
@@ -148,10 +154,12 @@ func (s *quicServer) handleConn(c quic.Connection) error {
 
 		// Handle stream.
 		// For doq, one stream, one query.
+		concurrent.Add(1)
 		go func() {
 			defer func() {
 				stream.Close()
 				stream.CancelRead(0) // TODO: Needs a proper error code.
+				concurrent.Add(-1)
 			}()
 			s.handleStream(stream, c, remoteAddr, localAddr)
 		}()
